@@ -311,6 +311,8 @@ def run(ctx):
             rep = json.loads(p.stdout)
             if not rep["uberjob"].startswith(core.REPO_SRC):
                 ctx.broke("C18 helper imported uberjob from the wrong place", rep["uberjob"])
+            if rep.get("warm_up_error"):
+                ctx.fail("extreme-markers", "TZ=%s: a run with a source dated datetime.min and fresh_time=datetime.max raised %s" % (z, rep["warm_up_error"]), {"zone": z})
             if not rep["zone_ok"]:
                 ctx.notes.setdefault("zones_skipped", []).append("%s: the C library does not honour TZ=%s (tzname %r)" % (z, z, rep["tzname"]))
                 continue
@@ -325,6 +327,7 @@ def run(ctx):
     zterms, zmeta = [], []      # list Z terms
     nterms, nmeta = [], []      # list nat terms
     decisions = {}              # tuple index -> {frozenset(written): [(zone, mix)]}
+    pre_decisions = {}          # tuple index -> {did the dependent source's predecessor run: [(zone, mix)]}
     for zi_, z in enumerate(zones):
         if z not in results:
             continue
@@ -373,6 +376,15 @@ def run(ctx):
                 ctx.case((z, "run", ti, meta["mi"], json.dumps(meta["mix"], sort_keys=True)), nontrivial=nontrivial)
                 ctx.count("run_mix", "+".join(sorted(set(meta["mix"][k] for k in t if t[k] is not None))))
                 ctx.count("run_stale_set", ",".join(sorted(written)) or "-")
+                if res.get("dep_source"):
+                    # s2 is a dependent source here (s -> a -> pre -> s2): a plan of its own, compared with the model and across zones / representations
+                    pre_decisions.setdefault(ti, {}).setdefault((written, bool(res.get("pre_ran"))), []).append((z, meta["mix"]))
+                    plan = ("[mkNode 0%%nat [] (Some (true, %s)); mkNode 1%%nat [0%%nat] (Some (false, %s)); mkNode 2%%nat [1%%nat] None; "
+                            "mkNode 3%%nat [2%%nat] (Some (true, %s)); mkNode 4%%nat [1%%nat; 3%%nat] None; mkNode 5%%nat [4%%nat] (Some (false, %s))]"
+                            ) % (coq_rep(reps["s"]), coq_rep(reps["a"]), coq_rep(reps["s2"]), coq_rep(reps["b"]))
+                    nterms.append("exec_stale true tr%d d%d %s %s" % (zi_, zi_, coq_rep(reps["fresh"]), plan))
+                    nmeta.append(("run-dep", z, ti, meta["mix"], (written, bool(res.get("pre_ran")))))
+                    continue
                 decisions.setdefault(ti, {}).setdefault(written, []).append((z, meta["mix"]))
                 plan = ("[mkNode 0%%nat [] (Some (true, %s)); mkNode 1%%nat [] (Some (true, %s)); "
                         "mkNode 2%%nat [0%%nat] (Some (false, %s)); mkNode 3%%nat [2%%nat; 1%%nat] None; "
@@ -405,6 +417,13 @@ def run(ctx):
         if what == "inst":
             model_inst[ti] = frozenset({2: "a", 4: "b"}[n] for n in nats(out) if n in (2, 4))
     for (what, z, ti, mix, written), out in zip(nmeta, nouts):
+        if what == "run-dep":
+            ctx.compared("Store/Time.v stale_nodes (plan with a dependent source) vs stores written / predecessor run by uberjob.run")
+            st_ = set(nats(out))
+            got = (frozenset({1: "a", 5: "b"}[n] for n in st_ if n in (1, 5)), 3 in st_)
+            if got != written:
+                ctx.broke("correspondence Store/Time.v stale_nodes vs uberjob.run (dependent source)", {"zone": z, "tuple": tuples[ti], "mix": mix, "model": [sorted(got[0]), got[1]], "impl": [sorted(written[0]), written[1]]})
+            continue
         if what != "run":
             continue
         ctx.compared("Store/Time.v stale_nodes vs stores written by uberjob.run")
@@ -424,6 +443,12 @@ def run(ctx):
                          tuples[ti], {",".join(sorted(w)) or "-": ["%s %s" % (z, "/".join(m[k] for k in ("fresh", "s", "s2", "a", "b"))) for z, m in v[:4]] for w, v in groups.items()}),
                      {"instants_us": tuples[ti], "decision_on_instants": sorted(ref) if ref is not None else None,
                       "observed": [{"written": sorted(w), "zone": z, "mix": m} for w, v in groups.items() for z, m in v[:3]]})
+    # ... and whether a dependent source counts as out of date (its predecessor call is run) depends on the instants only
+    for ti, by in pre_decisions.items():
+        if len(by) > 1:
+            ctx.fail("dependent-source", "with a dependent source, what is rebuilt / whether the call it depends on is run depends on zone / representation: instants %r give %r"
+                     % (tuples[ti], {"%s pre_ran=%s" % (",".join(sorted(k[0])) or "-", k[1]): ["%s %s" % (z, "/".join(m[x] for x in ("fresh", "s", "s2", "a", "b"))) for z, m in v[:4]] for k, v in by.items()}),
+                     {"instants_us": tuples[ti], "observed": [{"written": sorted(k[0]), "predecessor_ran": k[1], "zone": z, "mix": m} for k, v in by.items() for z, m in v[:3]]})
     ctx.notes["c18_counts"] = {"tuples": len(tuples), "zones_run": sorted(results), "conv_terms": len(zterms), "run_terms": len(nterms)}
     ctx.samples.append({"tuple": tuples[0], "decision": sorted(model_inst.get(0, [])), "zones": sorted(results)})
     ctx.samples.append({"transitions": {z: [(str(EPOCH + x * US), o // 10 ** 6) for x, o in tables[z][1] if x in interesting(z)][:4] for z in zones}})
